@@ -17,8 +17,20 @@ import (
 // Dev is one deviation: at recorded choice point Pos take alternative Alt
 // (every other choice point takes alternative 0).
 type Dev struct {
-	Pos int `json:"pos"`
-	Alt int `json:"alt"`
+	Pos  int  `json:"pos"`
+	Alt  int  `json:"alt"`
+	Free bool `json:"free,omitempty"`
+}
+
+// Cost is the number of deviations that count against the bound.
+func (s Schedule) Cost() int {
+	n := 0
+	for _, d := range s {
+		if !d.Free {
+			n++
+		}
+	}
+	return n
 }
 
 // Schedule is a sparse choice list.
@@ -172,10 +184,10 @@ func (e *explorer) evaluate(s Schedule, r *vrt.Result) {
 	if r.Threads > st.MaxThreads {
 		st.MaxThreads = r.Threads
 	}
-	for len(st.PerBound) <= len(s) {
+	for len(st.PerBound) <= s.Cost() {
 		st.PerBound = append(st.PerBound, 0)
 	}
-	st.PerBound[len(s)]++
+	st.PerBound[s.Cost()]++
 	st.Outcomes[r.Outcome]++
 	if len(r.Flags) > 0 {
 		st.Nontrivial[r.Outcome]++
@@ -228,7 +240,7 @@ func (e *explorer) evaluate(s Schedule, r *vrt.Result) {
 			continue
 		}
 		v := &Violation{Fingerprint: fp, Clause: f[1], Detail: f[2], Schedule: append(Schedule(nil), s...),
-			Deviations: len(s), Outcome: r.Outcome, Crash: r.Crash, Blocked: r.Blocked, Count: 1, Flags: r.Flags}
+			Deviations: s.Cost(), Outcome: r.Outcome, Crash: r.Crash, Blocked: r.Blocked, Count: 1, Flags: r.Flags}
 		e.byFP[fp] = v
 		st.Violations = append(st.Violations, v)
 	}
@@ -246,26 +258,16 @@ func (e *explorer) dfs(s Schedule, level int) {
 		return
 	}
 	r := e.run(s)
-	if len(s) == level {
+	atLevel := s.Cost() == level
+	if atLevel {
 		if len(s) == 0 && e.cfg.Shard != 0 {
 			// the root is evaluated by shard 0 only
 		} else {
 			e.evaluate(s, r)
 		}
-		// are there alternatives beyond this level?
-		from := 0
-		if len(s) > 0 {
-			from = s[len(s)-1].Pos + 1
-		}
-		for i := from; i < len(r.Points); i++ {
-			if r.Points[i].N > 1 {
-				e.pruned = true
-				break
-			}
-		}
-		return
+	} else {
+		e.st.Reruns++
 	}
-	e.st.Reruns++
 	if r.End == "diverged" {
 		e.engineError("replay divergence: " + r.Divergence)
 		return
@@ -277,6 +279,7 @@ func (e *explorer) dfs(s Schedule, level int) {
 	kid := 0
 	for i := from; i < len(r.Points); i++ {
 		for alt := 1; alt < r.Points[i].N; alt++ {
+			free := r.Points[i].Free
 			if len(s) == 0 {
 				mine := kid%e.cfg.Shards == e.cfg.Shard
 				kid++
@@ -284,7 +287,12 @@ func (e *explorer) dfs(s Schedule, level int) {
 					continue
 				}
 			}
-			child := append(append(Schedule(nil), s...), Dev{i, alt})
+			if atLevel && !free {
+				// beyond this level's budget
+				e.pruned = true
+				continue
+			}
+			child := append(append(Schedule(nil), s...), Dev{i, alt, free})
 			e.dfs(child, level)
 			if e.stop {
 				return
